@@ -700,7 +700,7 @@ def plan_C09(tier, seed):
 
 def _nt_c20(ev):
     if ev["k"] == "call":
-        return (ev["f"], ev["cls"], ev["variant"], ev["key"])
+        return (ev["f"], ev["cls"], ev["variant"], tuple(ev["key"]))
     if ev["k"] == "step":
         o = ev["o"]
         return ("step", o["t"], o["op"], o["dst"], o["l"], o["r"], o["k"], tuple(ev["sh"]))
@@ -714,6 +714,8 @@ def plan_C20(tier, seed):
           for i in range(parts)]
     sh += [Shard("nbr_%02d" % i, drv_api.gen_neighbours, dict(seed=seed + 1000 * r, part=i, parts=parts), *T)
            for i in range(parts) for r in range(1 if tier == "quick" else 4)]
+    sh += [Shard("suite_tests", drv_api.gen_testsuite, dict(kind="tests"), *T),
+           Shard("suite_doctests", drv_api.gen_testsuite, dict(kind="doctests"), *T)]
     sh += _heap_shards("angle", tier, seed, 2) + _heap_shards("epoch", tier, seed, 1)
     return dict(
         mc=[MC("MC_ObjHeap", "MC_ObjHeap_angle.cfg", workers=1, heap="3g", env={"HEAP_DEPTH": "2"},
